@@ -155,19 +155,20 @@ class MuxSim:
 class C06(verif.Spec):
     prop = "C06"
     comp = "mux"
-    lean_modules = ["ZvbiModel.Props.C06"]
+    lean_modules = ["ZvbiModel.Props.C06", "ZvbiModel.Props.C06Join"]
     harness = "mux_harness"
     harness_link_lib = True
     timeout_per_case = 5.0
-    partial_note = ("theorems cover sliced services through vbi_dvb_mux_feed (PES and TS) and vbi_dvb_multiplex_sliced; "
-                    "raw (monochrome sample) data units are checked by the oracle only; the coroutine "
-                    "vbi_dvb_mux_cor is modelled and validated by correspondence, its equality with feed is an open statement; "
-                    "round trip is proved against the independent reader EnParse, the library demultiplexer round trip is an oracle")
+    partial_note = ("theorems cover sliced services through vbi_dvb_mux_feed (PES and TS), vbi_dvb_mux_cor (proved equal to feed "
+                    "for all buffer size sequences, PES and TS, whole histories) and vbi_dvb_multiplex_sliced; the round trip "
+                    "through C07's model of the library demultiplexer is proved for the PES path, every feed partition, frames of "
+                    "defined lines (Props/C06Join.lean); raw (monochrome sample) data units are checked by the oracle only; "
+                    "lines with the undefined line number 0 and the TS path of the demultiplexer are judged by the --demux oracle")
     open_statements = [
-        "cor_equals_feed_full: for every sequence of output buffer sizes the bytes produced by repeated vbi_dvb_mux_cor calls equal the callback output of vbi_dvb_mux_feed (Mux.cor / Mux.corAll are modelled and validated by correspondence and the EnParse oracle; not proved)",
         "mux_accepts_all_permitted_full: every frame of permitted lines in ascending order that fits max_packet_size is accepted (oracle: 'permitted frame rejected')",
-        "mux_demux_roundtrip_lib_full: C07's model of dvb_demux.c (Zvbi.Demux.pesFeed / tsFeed) run on the concatenated multiplexer output returns the sent frames, split where the line number does not increase - to be stated in Props/C06Demux.lean once lean/ZvbiModel/Demux is in /verif; judged on the real code by the --demux oracle meanwhile",
-        "mux_noraw_hypothesis: mux_wellformed / mux_carries_input / round trips assume frames without VBI_SLICED_VBI_625 lines; frames with masked-out raw lines are covered by correspondence only",
+        "mux_demux_roundtrip_undef_full (Props/C06Join.lean): the library round trip for frames that also carry lines with the undefined line number 0 (frame boundaries then depend on the field parity bit, which EnParse does not record); proved without such lines as mux_demux_roundtrip_lib; judged on the real code by the --demux oracle",
+        "mux_demux_roundtrip_ts_full: the round trip through the TS path of the demultiplexer (_vbi_dvb_ts_demux_new; first frame lost when its PES packet is one TS packet, F30) - oracle only",
+        "mux_noraw_hypothesis: mux_wellformed / mux_carries_input / round trips / cor_equals_feed assume frames without VBI_SLICED_VBI_625 lines; frames with masked-out raw lines are covered by correspondence only",
         "mux_raw_wellformed_full: raw (monochrome sample) data units - oracle only; FALSE on the current code (known findings C06-D1, C06-D2)"]
     assumptions = ["callers pass vbi_sliced arrays of the stated length; callback is non-NULL",
                    "frames handed to one multiplexer hold no VBI_SLICED_VBI_625 lines in the theorems (raw == NULL)"]
